@@ -277,14 +277,6 @@ end AttrTree
 
 /-! ### `graft`: replace the subtree at a path -/
 
-/-- subtree at a path; `none` if the path leaves the tree -/
-def treeAt : AttrTree → List Text → Option AttrTree
-  | t, [] => some t
-  | .node kids, k :: ks => match Kids.lookup k kids with
-    | some t => treeAt t ks
-    | none => none
-  | .leaf _, _ :: _ => none
-
 /-- put `new` at path `p` (the path is expected to exist up to its last key) -/
 def graft : List Text → AttrTree → AttrTree → AttrTree
   | [], new, _ => new
